@@ -357,6 +357,12 @@ Proof.
 Qed.
 End ObserveThm.
 
+Lemma nth_map_seq_gen {A} (f : nat -> A) n i d : (i < n)%nat -> nth i (map f (seq 0 n)) d = f i.
+Proof.
+  intros H. rewrite (nth_indep _ d (f 0%nat)) by (rewrite map_length, seq_length; exact H).
+  rewrite (map_nth f (seq 0 n) 0%nat i). rewrite seq_nth by exact H. reflexivity.
+Qed.
+
 (* ---- what the restriction of a coinciding request contains ---- *)
 Lemma index_of_spec x l a : index_of x l = Some a -> nth_error l a = Some x.
 Proof.
@@ -404,7 +410,7 @@ Theorem coinciding_entries Q G gs go times tobs levels m :
                 nth j (nth i m []) 0 = nth a (nth b levels []) 0.
 Proof.
   intros Hg Hs Ho Hc. unfold coincide_restriction in Hc. destruct (q_spline_route Q); [discriminate|].
-  unfold coincide_rows in Hc. rewrite Hg, Hs, Ho in Hc.
+  unfold coincide_rows in Hc. rewrite Hg in Hc. destruct (q_subgrid_route Q); [discriminate|]. rewrite Hs, Ho in Hc.
   destruct (opt_all (map (fun x => index_of x gs) go)) as [rows|] eqn:Er; [|discriminate].
   unfold coincide_cols in Hc. destruct (opt_all (map (fun t => index_of t times) tobs)) as [cols|] eqn:Ec; [|discriminate].
   inversion Hc; subst m. clear Hc.
@@ -427,16 +433,49 @@ Qed.
 
 (* the repaired route is taken exactly when it can be: every node found, every time found *)
 Theorem coinciding_defined Q G gs go times tobs levels :
-  q_spline_route Q = false -> g_eq G = false -> g_sol G = Some gs -> g_obs G = Some go ->
+  q_spline_route Q = false -> q_subgrid_route Q = false -> g_eq G = false -> g_sol G = Some gs -> g_obs G = Some go ->
   (forall x, In x go -> In x gs) -> (forall t, In t tobs -> In t times) ->
   exists m, coincide_restriction Q G times tobs levels = Some m.
 Proof.
-  intros Hq Hg Hs Ho Hx Ht. unfold coincide_restriction, coincide_rows, coincide_cols. rewrite Hq, Hg, Hs, Ho.
+  intros Hq Hq2 Hg Hs Ho Hx Ht. unfold coincide_restriction, coincide_rows, coincide_cols. rewrite Hq, Hg, Hq2, Hs, Ho.
   assert (A1 : forall (l ref : qv), (forall x, In x l -> In x ref) -> exists r, opt_all (map (fun x => index_of x ref) l) = Some r).
   { induction l as [|x l IH]; intros ref H; simpl; [eexists; reflexivity|].
     destruct (index_of_complete x ref (H x (or_introl eq_refl))) as [a Ha]. rewrite Ha.
     destruct (IH ref (fun y Hy => H y (or_intror Hy))) as [r Hr]. rewrite Hr. eexists; reflexivity. }
   destruct (A1 go gs Hx) as [rows Hr]. destruct (A1 tobs times Ht) as [cols Hc]. rewrite Hr, Hc. eexists; reflexivity.
+Qed.
+
+(* equal grids (the minimal repair already covers this): every stored time asked for is answered by the stored level; the
+   rows are all nodes *)
+Theorem coinciding_entries_equal Q G times tobs levels m :
+  g_eq G = true -> coincide_restriction Q G times tobs levels = Some m ->
+  length m = length (hd [] levels) /\
+  forall a j t, (a < length (hd [] levels))%nat -> nth_error tobs j = Some t ->
+    exists b, nth_error times b = Some t /\ nth j (nth a m []) 0 = nth a (nth b levels []) 0.
+Proof.
+  intros Hg Hc. unfold coincide_restriction in Hc. destruct (q_spline_route Q); [discriminate|].
+  unfold coincide_rows in Hc. rewrite Hg in Hc.
+  unfold coincide_cols in Hc. destruct (opt_all (map (fun t => index_of t times) tobs)) as [cols|] eqn:Ec; [|discriminate].
+  inversion Hc; subst m. clear Hc. destruct (opt_all_spec _ _ _ Ec) as [Lc Hcs].
+  split; [unfold restrict_to; rewrite map_length, seq_length; reflexivity|].
+  intros a j t Ha Ht. destruct (Hcs j t Ht) as [b [Hb Hjb]]. exists b. split; [apply index_of_spec; exact Hjb|].
+  unfold restrict_to.
+  rewrite (nth_map_seq_gen (fun a0 => map (fun b0 => nth a0 (nth b0 levels []) 0) cols) _ a [] Ha).
+  clear - Hb. revert j Hb; induction cols as [|c cols IH]; intros [|j] H; simpl in *; try discriminate.
+  - inversion H; subst. reflexivity.
+  - apply IH. exact H.
+Qed.
+
+Theorem coinciding_defined_equal Q G times tobs levels :
+  q_spline_route Q = false -> g_eq G = true -> (forall t, In t tobs -> In t times) ->
+  exists m, coincide_restriction Q G times tobs levels = Some m.
+Proof.
+  intros Hq Hg Ht. unfold coincide_restriction, coincide_rows, coincide_cols. rewrite Hq, Hg.
+  assert (A1 : forall (l ref : qv), (forall x, In x l -> In x ref) -> exists r, opt_all (map (fun x => index_of x ref) l) = Some r).
+  { induction l as [|x l IH]; intros ref H; simpl; [eexists; reflexivity|].
+    destruct (index_of_complete x ref (H x (or_introl eq_refl))) as [a Ha]. rewrite Ha.
+    destruct (IH ref (fun y Hy => H y (or_intror Hy))) as [r Hr]. rewrite Hr. eexists; reflexivity. }
+  destruct (A1 tobs times Ht) as [cols Hc]. rewrite Hc. eexists; reflexivity.
 Qed.
 
 (* ---- the law assumed of RectBivariateSpline: a tensor product of two one-dimensional interpolants, each exact at
